@@ -28,7 +28,9 @@ CONSTANTS BlockLists, AllowLists,
           Configs,      \* set of [enabled, src, cosm]
           ForcedBeh,    \* behaviours of an http list in a forced refresh
           SchedBeh,     \* ... in a scheduled refresh
-          FileBeh       \* behaviours of a local-path list
+          FileBeh,      \* behaviours of a local-path list
+          SetURLBeh,    \* failing behaviours of the new location in a refused set_url ({}: no such action)
+          SetURLAsIs    \* FALSE; TRUE: negative control, the roll-back forgets the checksum (must violate InvCoherent)
 
 Lists == BlockLists \cup AllowLists
 
@@ -84,6 +86,11 @@ BehFile ==
     {OkB(t) : t \in {T0, T1, T1b, T2, T21, TH2, TB2, TT}}
     \cup {B("missingLocal", <<>>, 0, ""), B("dirLocal", <<>>, 0, "")}
 
+\* The new location of a refused set_url.
+BehSetURL == {B("status", T2, 0, "500"), B("cutBeforeHeaders", <<>>, 0, ""), B("connError", <<>>, 0, ""),
+              OkB(TH), B("cutMidLine", TCUT, 4, "cl")}
+BehNone   == {}
+
 \* A tiny set for the three-list configuration.
 BehTiny == {OkB(T1), OkB(T2), B("connError", <<>>, 0, ""), B("cutMidLine", TCUT, 4, "cl")}
 
@@ -112,7 +119,7 @@ ConfMixed == ConfHTTP
 ConfLong == ConfHTTP
     \cup {[enabled |-> AllOn, src |-> [AllHTTP EXCEPT ![l] = "file"], cosm |-> CosmC] : l \in BlockLists}
 
-AllBeh == BehFull \cup BehSched \cup BehFile \cup BehTiny \cup BehLong \cup BehLongSched \cup BehLongFile
+AllBeh == BehSetURL \cup BehFull \cup BehSched \cup BehFile \cup BehTiny \cup BehLong \cup BehLongSched \cup BehLongFile
 ASSUME \A b \in AllBeh : WellFormed(b)
 \* In this universe every behaviour has exactly one outcome, so that every
 \* emitted edge has exactly one destination (the soft parser cases are
@@ -171,7 +178,21 @@ Restart == /\ phase = "run"
            /\ Emit(cfg, S, [a |-> "restart"], <<>>, S', {}, {})
            /\ UNCHANGED <<phase, cfg>>
 
-Next == Boot \/ Forced \/ Sched \/ Restart
+\* A set_url of an enabled http list to a location whose download fails.
+\* asis: the state today's roll-back is known to leave instead (see the Core).
+SetURLFail ==
+    /\ phase = "run"
+    /\ \E l \in Lists, b \in SetURLBeh :
+         /\ cfg.enabled[l] /\ cfg.src[l] = "http"
+         /\ Assert(MustFail(cfg, b), "set_url behaviour must be a failure")
+         /\ S' = (IF SetURLAsIs THEN SetURLFailedAsIs(S, l) ELSE SetURLFailed(cfg, S, l))
+         /\ PrintT(<<"@@V", ToJson([cfg |-> cfg, src |-> S, act |-> [a |-> "seturl", list |-> l],
+                                    script |-> [x \in {l} |-> b], dst |-> S', rew |-> {}, failed |-> {l},
+                                    asis |-> SetURLFailedAsIs(S, l)])>>)
+         /\ Assert(SetURLAsIs \/ S' = S, "FailedSetURLChangesNothing")
+    /\ UNCHANGED <<phase, cfg>>
+
+Next == Boot \/ Forced \/ Sched \/ Restart \/ SetURLFail
 Spec == Init /\ [][Next]_vars
 
 ------------------------------------------------------------------------------
